@@ -20,6 +20,7 @@ func init() {
 		Assumptions: []string{"math.Abs/Min/Max, time.Time.Sub/Before have their mathematical meaning"},
 		Run:         runC16,
 		Controls: []Control{
+			{Name: "identity-shortcut-by-subtraction", File: "pkg/cmp/number.go", Old: "\t\tif fx == fy || (math.IsNaN(fx) && math.IsNaN(fy)) {", New: "\t\tif fx-fy == 0 || (math.IsNaN(fx) && math.IsNaN(fy)) {", Expect: "R16.6"},
 			{Name: "held-fallback-inverted", File: "pkg/resource/collection.go", Old: "\t\t\t\tlast, ok := held[change.Id]\n\t\t\t\tif !ok {\n", New: "\t\t\t\tlast, ok := held[change.Id]\n\t\t\t\tif ok {\n", Expect: "the held value is used when there is one"},
 			{Name: "list-comparison-skips-the-first-element", File: "pkg/cmp/cmp.go", Old: "\tfor i := x.Len() - 1; i >= 0; i-- {\n", New: "\tfor i := x.Len() - 1; i > 0; i-- {\n", Expect: "R16.7"},
 			{Name: "collection-removal-keeps-held", File: "pkg/resource/collection.go", Old: "\t\t\tif c.equivalence != nil {\n\t\t\t\tlast, ok := held[change.Id]", New: "\t\t\tif c.equivalence != nil && change.NewValue != nil {\n\t\t\t\tlast, ok := held[change.Id]", Expect: "every delivery updates"},
@@ -689,7 +690,8 @@ func r162and3(c *an.Ctx) {
 		// arithmetic verdict is only reached when neither holds.
 		if name == "FloatValueApprox" {
 			isEq := func(a string) bool {
-				return strings.Contains(a, "Float(x)") && strings.Contains(a, "Float(y)") && strings.Contains(a, "==") && !strings.Contains(a, "math.")
+				// the two values compared directly: `x-y == 0` is not the same test (Inf-Inf is NaN)
+				return strings.Contains(a, "Float(x)") && strings.Contains(a, "Float(y)") && strings.Contains(a, "==") && !strings.Contains(a, "math.") && !strings.Contains(a, "-") && !strings.Contains(a, "+")
 			}
 			isNaN := func(a, side string) bool {
 				return strings.HasPrefix(a, "call math.IsNaN(") && strings.Contains(a, "Float("+side+")") && !strings.Contains(a, "Float("+map[string]string{"x": "y", "y": "x"}[side]+")")
@@ -1613,24 +1615,24 @@ func r165held(c *an.Ctx, rule string) {
 			// configured records what the subscriber now holds (a removal forgets the entry), else a later change is
 			// compared with a value the subscriber no longer has
 			if len(mapVals)+len(mapCells) > 0 && cmpCall.Parent() == f {
-				isRefWrite := func(in ssa.Instruction) bool {
-					isOurMap := func(m ssa.Value) bool {
-						for _, mv := range mapVals {
-							if m == mv {
-								return true
-							}
+				isOurMap := func(m ssa.Value) bool {
+					for _, mv := range mapVals {
+						if m == mv {
+							return true
 						}
-						if ld, isLoad := m.(*ssa.UnOp); isLoad && ld.Op == token.MUL {
-							if cell := an.CellOf(ld.X); cell != nil {
-								for _, mc := range mapCells {
-									if mc.Alloc == cell.Alloc {
-										return true
-									}
+					}
+					if ld, isLoad := m.(*ssa.UnOp); isLoad && ld.Op == token.MUL {
+						if cell := an.CellOf(ld.X); cell != nil {
+							for _, mc := range mapCells {
+								if mc.Alloc == cell.Alloc {
+									return true
 								}
 							}
 						}
-						return false
 					}
+					return false
+				}
+				isRefWrite := func(in ssa.Instruction) bool {
 					switch x := in.(type) {
 					case *ssa.MapUpdate:
 						return isOurMap(x.Map)
@@ -1646,7 +1648,8 @@ func r165held(c *an.Ctx, rule string) {
 						return false
 					}
 					x, trueMeansNil, ok := an.NilTest(iff.Cond)
-					if !ok || !isFieldLoad(x, "equivalence") {
+					// (the reference map itself is only made when an equivalence is configured: `held == nil` says the same)
+					if !ok || !(isFieldLoad(x, "equivalence") || isOurMap(x)) {
 						return false
 					}
 					if trueMeansNil {
